@@ -1050,7 +1050,8 @@ impl Harness for C18 {
         "One evaluation = one simulated run of the real parent.rs/child.rs/frame.rs: a seeded request sequence \
          (1..5 requests, thorough also up to 10, over Add/Panic/Sleep(below or beyond the limit)/AllocBeyond/Exit/Large, \
          plus a trailing sentinel Add; the first 9330 run indices of a batch enumerate every sequence of kinds of length 1..5 once, \
-         all later ones are random) with seeded gaps, pipe capacity, partial-write rate, kill-on-dead-child result, \
+         all later ones are random; Large payloads of 1 byte .. 4 x pipe capacity, one in six within a few dozen bytes of 2^16 or 2^20) \
+         with seeded gaps, pipe capacity, child memory limit {1000 B, 100 KB, 1 MiB, 16 MiB}, child start-up latency, partial-write rate, kill-on-dead-child result, \
          scheduling policy, and a seeded schedule of {client task, run_task, child threads, timers} at seam granularity. \
          A run is non-trivial when its sequence contains at least one failing request kind, or an extra fault was \
          injected, or at least one scheduling/IO decision differed from the default; distinct = distinct 64-bit digest \
@@ -1061,7 +1062,7 @@ impl Harness for C18 {
     fn assumptions(&self) -> Vec<String> {
         vec![
             "The simulated pipe/process/timer semantics are POSIX-like: write to a pipe whose reader is gone = EPIPE, read after the writer is gone and the buffer is drained = EOF, kill closes the child's ends at once".into(),
-            "One child process = one controlled OS thread running the real become_child; the child's memory limit is a private real Alloc charged by the test service (AllocBeyond asks for limit+1 bytes and aborts on null) and, through two hook lines in frame.rs, by the frame buffer and the serialised reply, so a payload that does not fit makes the child abort while reading, processing or answering".into(),
+            "One child process = one controlled OS thread running the real become_child (a thread the child's code starts itself is a further controlled thread of the same simulated process); the child's memory limit is a private real Alloc charged by the test service (AllocBeyond asks for limit+1 bytes and aborts on null) and, through two hook lines in frame.rs, by the frame buffer and the serialised reply, so a payload that does not fit makes the child abort while reading, processing or answering".into(),
             "Simulated time advances only when no party can run; interleavings are explored at seam granularity (pipe ops, exit, sleep, await points), not inside straight-line code".into(),
             "Seeded sampling: a clean batch is evidence, not proof".into(),
         ]
